@@ -14,9 +14,10 @@ func init() {
 		"Decides the locking / re-check / publication disciplines of the concurrent table (internal/hashmap) on every path: the update function runs exactly once per Compute call and never on a path that retries; it and every slot/meta/link store run with the root-bucket lock held and no unlock separates the callback from the store of its result; "+
 			"after locking, 'resize in progress' and then 'newer table exists' are tested before any slot is touched; every lock is released on all exits; resize migrates the table loaded after it won the flag, publishes the new table before clearing the flag and always clears the flag; the lock-free reader loads slots atomically and double-checks the key; "+
 			"meta bytes are written before node pointers (and cleared before them); size accounting is +1/-1/0 exactly once per insert/delete/update; Range calls the user function only after releasing the bucket lock; the cache's iterators yield only live, unexpired nodes. "+
+			"The cache's iterators over the table yield only alive entries that are unexpired at a clock sample taken inside the iteration (C03.filter: nothing that expired before the iteration began). "+
 			"NOT decided: linearizability and weak consistency of iteration over all schedules; hash-collision behaviour.",
 		[]string{"sync.Mutex / sync/atomic semantics", "node Key() is immutable (C02.immut)"},
-		ruleC15Once, ruleC15RMW, ruleC15Recheck, ruleC15LockPair, ruleC15Publish, ruleC15Current, ruleC15KeyCheck, ruleC15Atomic, ruleC15MetaOrder, ruleC15Size, ruleC15Range, ruleC15CopyAll)
+		ruleC15Once, ruleC15RMW, ruleC15Recheck, ruleC15LockPair, ruleC15Publish, ruleC15Current, ruleC15KeyCheck, ruleC15Atomic, ruleC15MetaOrder, ruleC15Size, ruleC15Range, ruleC15CopyAll, ruleC03Filter)
 }
 
 const hmPkg = "internal/hashmap"
